@@ -265,11 +265,35 @@ fn op_name(op: &Op) -> &'static str {
     }
 }
 
+/// Scale probes (see probes.rs).
+fn enumerate(_tier: Tier, idx: u32, of: u32, cx: &mut Cx) -> CaseResult {
+    if !crate::probes::mine(idx, of) {
+        return Ok(());
+    }
+    for (name, (opts, tree)) in [
+        ("many-hunks", crate::probes::many_hunks_tree(10_012)),
+        ("big-blocks", crate::probes::big_blocks_tree()),
+    ] {
+        crate::engine::heartbeat();
+        let sub = cx.dir(name);
+        std::fs::create_dir_all(&sub).unwrap();
+        let mut cx2 = crate::engine::sub_cx(cx, sub);
+        run(&Case::Single { opts, tree }, &mut cx2).map_err(|mut f| {
+            f.signature = format!("{}/probe-{name}", f.signature);
+            f.inner = serde_json::json!({"probe": name});
+            f
+        })?;
+        cx.add_evals(1);
+        cx.inner_nontrivial += 1;
+    }
+    Ok(())
+}
+
 pub fn prop() -> Prop<Case> {
     Prop {
         id: "C13",
         level: "exploration",
-        rule: "case = (options, tree) single backup or a history as in C02; after every mutating archive operation (backup, interrupted backup, delete, gc) the archive directory is read by the harness's own decoder (serde_json + snap + blake2) and checked: header, hunk names i/%05d/%09d numbered consecutively from 0 and non-empty, valid apaths strictly increasing within and across hunks under the reference order, tail hunk count == number of hunk files, blocks at d/<3 hex>/<128 hex> named by BLAKE2b-512 of their decompressed content, addresses inside their block, addresses only on files with lengths summing to the model's file size, target iff symlink. Non-trivial = some band with >=2 hunks and some block shared by >=2 entries; distinct by case hash; evaluations = archive states checked",
+        rule: "case = (options, tree) single backup or a history as in C02; after every mutating archive operation (backup, interrupted backup, delete, gc) the archive directory is read by the harness's own decoder (serde_json + snap + blake2) and checked: header, hunk names i/%05d/%09d numbered consecutively from 0 and non-empty, valid apaths strictly increasing within and across hunks under the reference order, tail hunk count == number of hunk files, blocks at d/<3 hex>/<128 hex> named by BLAKE2b-512 of their decompressed content, addresses inside their block, addresses only on files with lengths summing to the model's file size, target iff symlink. Non-trivial = some band with >=2 hunks and some block shared by >=2 entries; distinct by case hash; evaluations = archive states checked; plus two fixed scale probes (10 012 one-entry hunks; multi-MiB blocks)",
         assumptions: &[
             "zero-length files left by the torn-write variant of an interruption are counted and skipped (documented exception)",
             "the decoder reads the key 'len' in addresses (what conserve writes; doc/format.md calls it 'length')",
@@ -277,7 +301,7 @@ pub fn prop() -> Prop<Case> {
         cases: |t| t.pick(2400, 100_000),
         strategy,
         run,
-        enumerate: None,
+        enumerate: Some(enumerate),
         exhaustive: |_| false,
         max_shrink_iters: 1500,
     }
